@@ -1069,6 +1069,19 @@ func (h *handler) handleProduce(ctx context.Context, header *protocol.RequestHea
 				}
 				continue
 			}
+			if batch.LastOffsetDelta < 0 || batch.MessageCount != batch.LastOffsetDelta+1 {
+				// Offsets are assigned from these two header fields. A producer batch
+				// always has lastOffsetDelta == recordCount-1; anything else would hand
+				// out offsets twice (negative delta) or leave holes in the log.
+				p := kmsg.NewProduceResponseTopicPartition()
+				p.Partition = part.Partition
+				p.ErrorCode = protocol.CORRUPT_MESSAGE
+				partitionResponses = append(partitionResponses, p)
+				if h.traceKafka {
+					h.logger.Debug("produce rejected: inconsistent record batch header", "topic", topic.Topic, "partition", part.Partition, "last_offset_delta", batch.LastOffsetDelta, "record_count", batch.MessageCount)
+				}
+				continue
+			}
 			result, err := plog.AppendBatch(ctx, batch)
 			if err != nil {
 				p := kmsg.NewProduceResponseTopicPartition()
